@@ -59,12 +59,12 @@ def _append(path, text):
 class Metric:
     """metric number k: behaviour per graph label from a table; logs every call"""
 
-    def __init__(self, k, table, delays, path):
-        self.k, self.table, self.delays, self.path = k, table, delays, path
+    def __init__(self, k, table, delays, path, oid=0):
+        self.k, self.table, self.delays, self.path, self.oid = k, table, delays, path, oid
 
     def __call__(self, graph):
         g = label_of(graph)
-        _append(self.path, 'm %d %d\n' % (self.k, g))
+        _append(self.path, 'm %d %d %d\n' % (self.k, g, self.oid))      # oid tells objectives apart
         d = self.delays.get(g, 0) if self.k == 0 else 0
         if d:
             time.sleep(d)
@@ -233,32 +233,48 @@ def timer_pattern(t):
 WRONG_CALLBACK = 50000      # a call of a callback that is not the one currently set is shown as this + label
 
 
-def make_dispatcher(run, dg):
+def make_dispatcher(run, dg, adapter=None):
+    adapter = adapter or DirectAdapter()
     delegate = Delegate(dg['add'], dg['mul'], dg['drop'], dg['enabled']) if dg else None
     if run['par']:
-        disp = MultiprocessingDispatcher(DirectAdapter(), n_jobs=run['n_jobs'], delegate_evaluator=delegate)
+        disp = MultiprocessingDispatcher(adapter, n_jobs=run['n_jobs'], delegate_evaluator=delegate)
     else:
-        disp = SequentialDispatcher(DirectAdapter(), delegate_evaluator=delegate)
+        disp = SequentialDispatcher(adapter, delegate_evaluator=delegate)
     return disp, delegate
 
 
-def evaluate_step(disp, delegate, sc, run, tmpdir, pop=None, cb_tag='c', abort_at=None):
-    """dispatch(objective, timer) + set callback + one evaluation on `disp`; canonical observation.
-    Returns (observation, population objects)."""
+_OBJECTIVE_IDS = [0]
+
+
+def dispatch_step(disp, sc, run, tmpdir, cb_tag='c', abort_at=None):
+    """set the callback and dispatch(objective, timer) on `disp`; returns what run_step needs"""
     path = os.path.join(tmpdir, 'events.log')
-    if os.path.exists(path):
-        os.remove(path)
     table = {int(k): v for k, v in sc['table'].items()}
     delays = {int(k): v for k, v in run.get('delays', {}).items()}
-    metrics = {'m%d' % k: Metric(k, table, delays, path) for k in range(sc['nmetrics'])}
+    _OBJECTIVE_IDS[0] += 1
+    oid = _OBJECTIVE_IDS[0]
+    metrics = {'m%d' % k: Metric(k, table, delays, path, oid) for k in range(sc['nmetrics'])}
     objective = Objective(metrics, is_multi_objective=sc['multi'])
+    disp.set_graph_evaluation_callback(AbortingCallback(path, cb_tag, abort_at) if abort_at else Callback(path, cb_tag))
+    timer, entered = make_timer(sc['timer'])
+    h = {'sc': sc, 'path': path, 'oid': oid, 'cb_tag': cb_tag, 'entered': entered, 'evaluator': None, 'raised': None}
+    try:
+        h['evaluator'] = disp.dispatch(objective, timer)
+    except Exception as ex:  # noqa
+        h['raised'] = '%s: %s' % (type(ex).__name__, ex)
+    return h
+
+
+def run_step(h, delegate, pop=None):
+    """one evaluation with the operator a dispatch_step returned; canonical observation and the population"""
+    sc, path, cb_tag = h['sc'], h['path'], h['cb_tag']
+    if os.path.exists(path):
+        os.remove(path)
     fresh = pop is None
     if fresh:
         pop = build_population(sc)
     if delegate is not None and sc.get('delegate'):
         delegate.enabled = bool(sc['delegate']['enabled'])        # is_enabled is read at every evaluation
-    disp.set_graph_evaluation_callback(AbortingCallback(path, cb_tag, abort_at) if abort_at else Callback(path, cb_tag))
-    timer, entered = make_timer(sc['timer'])
     # canonical uid: position of the first individual of the input carrying that uid string
     first = {}
     for j, ind in enumerate(pop):
@@ -267,23 +283,17 @@ def evaluate_step(disp, delegate, sc, run, tmpdir, pop=None, cb_tag='c', abort_a
     pre_in = intended_fitness(sc) if fresh else [canon_fit(ind.fitness) for ind in pop]
     labels_in = [label_of(ind.graph) for ind in pop]
     calls_before = len(delegate.calls) if delegate else 0
-    raised = None
+    raised = h['raised']
     out = []
     try:
-        evaluator = disp.dispatch(objective, timer)
-        result = evaluator(pop)
-        for x in result:
-            j = next((j for j, ind in enumerate(pop) if ind is x), None)   # must BE an input object
-            out.append([uids_in[j] if j is not None else 9000 + first.get(x.uid, 999),
-                        canon_fit(x.fitness), label_of(x.graph)])
+        if raised is None:
+            result = h['evaluator'](pop)
+            for x in result:
+                j = next((j for j, ind in enumerate(pop) if ind is x), None)   # must BE an input object
+                out.append([uids_in[j] if j is not None else 9000 + first.get(x.uid, 999),
+                            canon_fit(x.fitness), label_of(x.graph)])
     except Exception as ex:  # noqa
         raised = '%s: %s' % (type(ex).__name__, ex)
-    finally:
-        if entered is not None:
-            try:
-                entered.__exit__(None, None, None)
-            except Exception:  # noqa
-                pass
     log = []
     if os.path.exists(path):
         for ln in open(path).read().split('\n'):
@@ -291,12 +301,33 @@ def evaluate_step(disp, delegate, sc, run, tmpdir, pop=None, cb_tag='c', abort_a
             if not w:
                 continue
             if w[0] == 'm':
-                log.append(['m', int(w[1]), int(w[2])])
+                # a metric of an objective that is not the one dispatched last on this dispatcher, or a callback
+                # that is not the one set on it, is shown as a call on an unknown graph
+                log.append(['m', int(w[1]), int(w[2]) if int(w[3]) == h['oid'] else WRONG_CALLBACK + int(w[2])])
             else:
                 log.append(['c', int(w[1]) if w[0] == cb_tag else WRONG_CALLBACK + int(w[1])])
     ob = {'uids': uids_in, 'pre': pre_in, 'labels': labels_in, 'raised': raised, 'out': out, 'log': log,
           'deleg': [[list(a), list(b)] for a, b in (delegate.calls[calls_before:] if delegate else [])]}
     return ob, pop
+
+
+def close_step(h):
+    if h.get('entered') is not None:
+        try:
+            h['entered'].__exit__(None, None, None)
+        except Exception:  # noqa
+            pass
+        h['entered'] = None
+
+
+def evaluate_step(disp, delegate, sc, run, tmpdir, pop=None, cb_tag='c', abort_at=None):
+    """dispatch(objective, timer) + set callback + one evaluation on `disp`; canonical observation.
+    Returns (observation, population objects)."""
+    h = dispatch_step(disp, sc, run, tmpdir, cb_tag, abort_at)
+    try:
+        return run_step(h, delegate, pop)
+    finally:
+        close_step(h)
 
 
 def observe(sc, run, tmpdir):
@@ -501,6 +532,66 @@ def gen_session(rng, par, n_jobs):
     return {'par': par, 'n_jobs': n_jobs, 'delegate': dg, 'steps': steps}
 
 
+def observe_group(grp, tmpdir):
+    """two or three dispatcher objects built over ONE shared adapter instance, each dispatched with its own
+    objective table and callback, used alternately; returns [(op index, scenario, run, observation)] for the
+    evaluations; every evaluation is on a fresh population of the scenario dispatched last on that dispatcher"""
+    adapter = DirectAdapter()
+    runs = [{'par': d['par'], 'n_jobs': d['n_jobs']} for d in grp['dispatchers']]
+    made = [make_dispatcher(r, d.get('delegate'), adapter) for r, d in zip(runs, grp['dispatchers'])]
+    handles = [None] * len(made)
+    out = []
+    try:
+        for k, op in enumerate(grp['ops']):
+            j = op['d']
+            if op['op'] == 'dispatch':
+                if handles[j]:
+                    close_step(handles[j])
+                handles[j] = dispatch_step(made[j][0], op['sc'], runs[j], tmpdir, op['cb'])
+            else:
+                ob, _ = run_step(handles[j], made[j][1])
+                ob['aborted'] = False
+                out.append((k, handles[j]['sc'], runs[j], ob))
+    finally:
+        for h in handles:
+            if h:
+                close_step(h)
+    return out
+
+
+def gen_group(rng, with_workers=False):
+    n = rng.choice([2, 2, 3])
+    shape = rng.choice(['par', 'seq', 'mixed', 'mixed'])
+    disps = []
+    for j in range(n):
+        par = shape == 'par' or (shape == 'mixed' and (j % 2 == 0) == (rng.random() < 0.5 or j > 0 and not disps[0]['par']))
+        if shape == 'mixed' and j == n - 1 and all(d['par'] == par for d in disps):
+            par = not par
+        dg = None
+        if rng.random() < 0.25:
+            dg = {'add': 100, 'mul': rng.choice([0, 20]), 'drop': 0, 'enabled': True}
+        disps.append({'par': par, 'n_jobs': 2 if (with_workers and par and j == 0) else 1, 'delegate': dg})
+    free = ['none', 'none', 'generous', 'generous_opt', 'expired']
+
+    def scen(j):
+        dg = disps[j]['delegate']
+        return gen_scenario(rng, rng.choice([1, 2, 3, 4, 6]), allow_fake_timer=False, allow_delegate=False,
+                            force={'timer': rng.choice(free), 'delegate': dict(dg) if dg else None, 'share': False,
+                                   'p_fail': rng.choice([0.0, 0.0, 0.3])})
+    ops = [{'op': 'dispatch', 'd': j, 'sc': scen(j), 'cb': 'a%d' % j} for j in range(n)]
+    rng.shuffle(ops)
+    order = list(range(n))
+    for _ in range(rng.choice([1, 2])):
+        rng.shuffle(order)
+        ops += [{'op': 'eval', 'd': j} for j in order]
+    if rng.random() < 0.5:                        # one of them is dispatched again with another objective / callback
+        j = rng.randrange(n)
+        ops.append({'op': 'dispatch', 'd': j, 'sc': scen(j), 'cb': 'b%d' % j})
+        rng.shuffle(order)
+        ops += [{'op': 'eval', 'd': i} for i in order]
+    return {'dispatchers': disps, 'ops': ops}
+
+
 def gen_delays(rng, sc):
     """per-label sleeps (seconds) that permute the completion order of the workers"""
     labels = [int(g) for g in sc['table']]
@@ -586,6 +677,12 @@ def evaluate_cases(ctx, group, triples, with_canary=False):
         ctx.count(group, key=case_key(sc, run), nontrivial=nontrivial(sc, ob), **classify(sc, run, ob))
         if not ho:
             what = describe_violation(sc, run, ob, bits[2:])
+            if 'group' in extra:
+                g = extra['group']
+                what = ('operation %d of a session with %d dispatcher objects over ONE shared adapter (%s; dispatcher %d): %s'
+                        % (extra['op'] + 1, len(g['dispatchers']),
+                           '/'.join('parallel' if d['par'] else 'sequential' for d in g['dispatchers']),
+                           g['ops'][extra['op']]['d'], what))
             if 'session' in extra:
                 what = ('round %d of a session on ONE dispatcher object (time limits of the rounds: %s; this round: %s): %s'
                         % (extra['step'] + 1, [st['sc']['timer']['kind'] for st in extra['session']['steps']],
@@ -616,7 +713,8 @@ def run(ctx):
                 'object dispatched 2..4 times with changing objective / time limit (expired, tiny, none, generous) / '
                 'callback, optionally re-evaluating the same Individual objects, or with a round (enabled delegate) aborted '
                 'by an exception escaping the evaluation, the delegate then switched off and the same individuals '
-                'evaluated again; every completed round is a case. Pre-existing fitness is given either by '
+                'evaluated again; or 2..3 dispatcher objects (same class or mixed) over ONE shared adapter instance, each '
+                'with its own objective table and callback, used alternately; every completed round is a case. Pre-existing fitness is given either by '
                 'Individual(graph, fitness=...) or by in-place assignment on a default-constructed Individual; the '
                 'fitness an individual has by construction is what the case states, not what the object reports. Exhaustive '
                 'small scope: all populations of <= 2 individuals over 6 kinds x 2 timers x 2 dispatchers. '
@@ -703,6 +801,11 @@ def run(ctx):
                     ctx.count('aborted-rounds', key=repr(ses), nontrivial=False, dispatcher='parallel' if par else 'sequential')
                     continue
                 triples.append((sc, rn, ob, {'session': ses, 'step': k}))
+        # ---- several dispatcher objects over ONE shared adapter instance, used alternately
+        for k in range(ctx.budget(16, 160)):
+            grp = gen_group(rng, with_workers=(k % 8 == 7))
+            for op_k, sc, rn, ob in observe_group(grp, tmpdir):
+                triples.append((sc, rn, ob, {'group': grp, 'op': op_k}))
         ctx.set_exhaustive('sessions', False)
         evaluate_cases(ctx, 'sessions', triples)
         if triples:
@@ -759,9 +862,17 @@ def check_cross(ctx, cross, group='cross'):
 def replay(ctx, payload):
     v = payload.get('violation') or payload.get('first_disagreement') or payload
     case = v.get('case') if isinstance(v, dict) else None
-    if not case or 'scenario' not in case:
+    if not case or not ('scenario' in case or 'group' in case or 'session' in case):
         return
     tmpdir = tempfile.mkdtemp(prefix='c05_')
+    if 'group' in case:                         # dispatchers over one shared adapter: redo the whole session
+        try:
+            grp = case['group']
+            evaluate_cases(ctx, 'replay', [(sc, rn, ob, {'group': grp, 'op': k})
+                                           for k, sc, rn, ob in observe_group(grp, tmpdir)])
+        finally:
+            shutil.rmtree(tmpdir, ignore_errors=True)
+        return
     if 'session' in case:                       # a round of a session: redo the whole session
         try:
             ses = case['session']
